@@ -112,9 +112,12 @@ int main()
             if (objects.count(id)) { cur->append(objects[id]); continue; }     // the same object at another place
             HandlerPtr h;
             bool fluent = sp != nullptr && (id % 3 != 0);   // two thirds through the fluent API where it exists
-            if (k == "as" || k == "ac") {
+            if (k == "as" || k == "ac" || k == "am") {
                 std::function<QVariantHash(const LogMessage &)> f;
                 if (k == "as") { QString kk = unhex(p[2]), v = unhex(p[3]); f = [id, kk, v](const LogMessage &) { logx(id, true); return QVariantHash{ { kk, v } }; }; }
+                else if (k == "am") { QVariantHash hsh;   // several pairs; later pairs of the list win
+                    for (const QString &kv : p.value(2).split(',', Qt::SkipEmptyParts)) { auto q = kv.split('.'); hsh.insert(unhex(q[0]), unhex(q.value(1))); }
+                    f = [id, hsh](const LogMessage &) { logx(id, true); return hsh; }; }
                 else { QString kk = unhex(p[2]); f = [id, kk](const LogMessage &m) { logx(id, true); return QVariantHash{ { kk, m.formattedMessage() } }; }; }
                 if (fluent) sp->attrHandler(f); else h = FunctionAttrHandlerPtr::create(f);
             } else if (k == "ft" || k == "ff" || k == "fc" || k == "fh" || k == "fy") {
